@@ -1701,16 +1701,22 @@ class C17(fw.Check):
             where = self.fc_out_dir(src_case, src_obs)
         if not where or not os.path.isdir(where):
             return None
+        # which file of the directory is the converted form of which source: by the path the earlier run
+        # gives to the output of that source, and only if that run has written the file (a file of the same
+        # name that was there before, or that a still earlier run has left, is just a file)
         origin = {}
         for spec in src_case["files"]:
+            if spec["sub"] and not src_case["recursive"]:
+                continue
             kind = spec.get("as_kind") or spec["kind"]
             if src_case["stream"] == "cli" and kind in OLD_KINDS:
                 origin[spec["stem"] + "_conv.xml"] = spec
             elif src_case["stream"] == "fc" and src_case["fmt"] == "v1_1" and kind in FC_GOOD["v1_1"] \
                     and file_name(spec).endswith((".xml", ".odml")):
-                origin[file_name(spec)] = spec
+                origin[os.path.join(spec["sub"], file_name(spec))] = spec
             elif src_case["stream"] == "fc" and src_case["fmt"] == "odml" and kind in FC_GOOD["other"]:
-                origin[os.path.splitext(file_name(spec))[0] + ".odml"] = spec
+                origin[os.path.join(spec["sub"], os.path.splitext(file_name(spec))[0] + ".odml")] = spec
+        written = set(os.path.normpath(os.path.join(base, rel)) for rel in src_obs.get("outputs", {}))
         files = []
         for rel in sorted(hashes(where)):
             sub, name = os.path.split(rel)
@@ -1719,12 +1725,16 @@ class C17(fw.Check):
                 raw = fh.read()
             spec = {"stem": stem, "ext": ext, "kind": "raw", "sub": sub, "tag": "raw",
                     "raw": base64.b64encode(raw).decode("ascii")}
-            src = origin.get(name)
-            if src is not None and ext in (".xml", ".odml"):
+            src = origin.get(rel)
+            if src is not None and ext in (".xml", ".odml") and \
+                    os.path.normpath(os.path.join(where, rel)) in written:
                 spec["as_kind"] = "xml11" if ext == ".xml" else "odml11"
                 spec["doc"] = src.get("doc") or template_doc(src.get("as_kind") or src["kind"])
                 spec["tag"] = src["tag"]
             files.append(spec)
+        if len(set(spec["stem"] for spec in files)) != len(files):
+            # (older material next to the results: base names are not unique - not a tree of the property)
+            return None
         return {"in_name": os.path.relpath(where, base), "files": files}
 
     def impl_cli(self, base, case):
